@@ -168,6 +168,13 @@ Fixpoint c15_run (keys : list rm_key) (s : rm_store) (ops : list c15_op)
   | op :: r => let '(o, s') := c15_step s op in (op, o, snapshot keys s') :: c15_run keys s' r
   end.
 
+(* the store after a history (used by the theorems over arbitrary histories) *)
+Fixpoint c15_exec (s : rm_store) (ops : list c15_op) : rm_store :=
+  match ops with
+  | [] => s
+  | op :: r => c15_exec (snd (c15_step s op)) r
+  end.
+
 (* ---- cases --------------------------------------------------------------------- *)
 
 Inductive c15_case :=
